@@ -16,6 +16,7 @@ import AcVerif.Packed.Vector
 import AcVerif.Pre.Builder
 import AcVerif.Cost
 import AcVerif.CostOverlap
+import AcVerif.PreScan
 import AcVerif.Compiler
 import AcVerif.DfaModel
 import AcVerif.DfaIds
@@ -217,6 +218,16 @@ def answer (r : Req) (c : Cfg) : String :=
                     let l := fmtList (log.map fun (x, b) => s!"{fmtMat x}/{hex b}")
                     s!"{hex w'.out} {res} {l} emptyreads={er}"
       | _, _ => "bad-request:input"
+    | "streamself" =>
+      -- stream = in-memory on the same searcher: C07_stream_eq_iter / C08_replace_eq, whose only side
+      -- condition (capacity > longest pattern) is what `bufcap` observes; a searcher the stream API rejects
+      -- (start kind, match kind, empty pattern) answers with that error
+      match gate false with
+      | .error e => e.name
+      | .ok () =>
+        match ChunkIter.new m.A ({ data := [], sched := [] } : Reader UInt8) none with
+        | .error e => e.name
+        | .ok _ => "same"
     | "recipe" =>
       match r.bytes? "hay" with
       | none => "bad-request:input"
@@ -314,6 +325,11 @@ def answerCost (r : Req) (c : Cfg) : String :=
           | .error e => e.name
           | .ok c => s!"{c.transitions}/{if isDfa then 0 else c.fails}")
     else
+    -- the haystack extent the prefilter answers of this search account for (`findScan`)
+    let scan : Nat := match gate with
+      | .error _ => 0
+      | .ok () => findScan A (preC.map (·.findIn)) i
+    (fun (core : String) => s!"{core} p={scan}") <|
     match gate with
     | .error e => s!"{e.name} t=0 f=0"
     | .ok () =>
@@ -856,10 +872,6 @@ def respond (lineNo : Nat) (line : String) : List String :=
           | _, _, _ => some s!"unparsable={it}"
         | _ => some s!"unparsable={it}"
       [if bad.isEmpty then s!"{lineNo} - ok n={items.length}" else s!"{lineNo} - hcap-fails {" ".intercalate (bad.take 6)}"]
-    | "streamself" =>
-      -- stream = in-memory on the same searcher: C07_stream_eq_iter / C08_replace_eq, whose only
-      -- side condition (capacity > longest pattern) is what `bufcap` observes
-      (cfgsOf r).map fun c => s!"{lineNo} {c.name} same"
     | "certpair" => [s!"{lineNo} - {answerCertPair r}"]
     | "certl1c" => [s!"{lineNo} - {answerCertL1c r}"]
     | "certnci" => [s!"{lineNo} - {answerCertNcIds r}"]
